@@ -47,6 +47,15 @@ def parse_shape(s):
 def active(fs):
     return any((active(f.sub) if f.kind == 'N' else f.kind != 'F') for f in fs)
 def u64(b, o): return struct.unpack_from('<Q', b, o)[0]
+def checksum_of(front, body):
+    """CheckedMessage: the accumulator lives in the body, so the body is hashed with CRC(front) in its checksum field"""
+    h1 = crc32c(front)
+    return crc32c(struct.pack('<I', h1) + bytes(body[4:]), h1)
+def seal(flat, size):
+    """recompute the checksum of a checked message stream"""
+    if len(flat) < size: return flat
+    front, body = bytes(flat[:len(flat) - size]), bytes(flat[len(flat) - size:])
+    return front + struct.pack('<I', checksum_of(front, body)) + body[4:]
 def p64(v): return struct.pack('<Q', v % W)
 
 # processing order of the archives (serialize.h 299-374, 411-426, 457-477): two passes over the
@@ -153,9 +162,7 @@ class Wire:
             if f.kind in 'AJ': self.field(f, body, 0, value['var'].get(f.off), False)
         for f in fs:
             if f.kind not in 'AJ': self.field(f, body, 0, value['var'].get(f.off), False)
-        if checked:
-            body[0:4] = b'\0\0\0\0'
-            body[0:4] = struct.pack('<I', crc32c(bytes(self.front) + bytes(body)))
+        if checked: body[0:4] = struct.pack('<I', checksum_of(bytes(self.front), body))
         return bytes(self.front) + bytes(body)
 
 class RefFail(Exception): pass
@@ -197,7 +204,7 @@ class Ref:
         if len(self.flat) < size: raise RefFail()
         body = self.flat[len(self.flat) - size:]; self.front = self.flat[:len(self.flat) - size]
         if checked:
-            if struct.unpack_from('<I', body, 0)[0] != crc32c(self.front + b'\0\0\0\0' + body[4:]): raise RefFail()
+            if struct.unpack_from('<I', body, 0)[0] != checksum_of(self.front, body): raise RefFail()
         res = {}
         for f in fs:
             if f.kind in 'AJ': res[f.off] = self.field(f, body, 0, False)
@@ -497,31 +504,16 @@ class Check(DiffCheck):
                     if len(hf) == 0:
                         cs.append(self.mk_D(ty, 4, [], [], '~')); continue
                     if checked and rng.random() < 0.5:            # keep the checksum valid so that the hostile field is reached
-                        body = bytearray(hf[len(hf) - size:]) if len(hf) >= size else None
-                        if body is not None:
-                            body[0:4] = b'\0\0\0\0'
-                            body[0:4] = struct.pack('<I', crc32c(hf[:len(hf) - size] + bytes(body)))
-                            hf = hf[:len(hf) - size] + bytes(body)
+                        hf = seal(hf, size)
                     rf, regions, iov = self.fragment(rng, hf)
                     cs.append(self.mk_D(ty, rf, regions, iov, self.map_ops(rng, ty, None) if rng.random() < 0.5 else '~'))
                 # ---- hostile sorted-map index
                 mfs = [f for f in fs if f.kind == 'M']
                 if mfs and value['var'].get(mfs[0].off):
                     for _ in range(4):
-                        w = Wire(rng, self.flags)
-                        # rebuild the message with a corrupted index
-                        v2 = dict(body=value['body'], var=dict(value['var']))
-                        flat2 = bytearray(Wire(rng, self.flags).message(fs, size, False, v2))
-                        # locate index bytes: search for the index array inside the stream
-                        ib, bb = Wire(rng, self.flags).map_bytes(mfs[0], value['var'][mfs[0].off])
-                        # the shuffles differ, so re-serialize deterministically instead: patch 8-byte words of any index found
-                        cands = [m.start() for m in re.finditer(re.escape(struct.pack('<Q', len(value['var'][mfs[0].off][0][0]))), bytes(flat2))]
+                        # a fresh honest stream, then corrupt words of its index (located through the reference deserializer)
+                        flat2 = bytearray(Wire(rng, self.flags).message(fs, size, False, value))
                         nent = len(value['var'][mfs[0].off])
-                        # simpler and exact: the index is the first field extracted for the map: find by its length word
-                        idx_len = 32 * nent
-                        pos_len = len(flat2) - size + mfs[0].off + 8
-                        if u64(flat2, pos_len) != idx_len: continue
-                        # position of the index bytes in the front stream = sum of the fields before it; recover by reference run
                         try:
                             ref = Ref(bytes(flat2), self.flags); tree = ref.message(fs, size, False)
                         except RefFail:
@@ -534,10 +526,7 @@ class Check(DiffCheck):
                             e = rng.randrange(nent); wsel = rng.randrange(4)
                             v = rng.choice([W - 1, W - 8, bn, bn + 1, bn - 1, 1 << 63, (1 << 63) - 1, rng.randrange(0, bn + 40), W - rng.randrange(1, 64), 0])
                             flat2[ipos + 32 * e + 8 * wsel: ipos + 32 * e + 8 * wsel + 8] = p64(v)
-                        if checked:
-                            body = bytearray(flat2[len(flat2) - size:]); body[0:4] = b'\0\0\0\0'
-                            body[0:4] = struct.pack('<I', crc32c(bytes(flat2[:len(flat2) - size]) + bytes(body)))
-                            flat2[len(flat2) - size:] = body
+                        if checked: flat2 = bytearray(seal(bytes(flat2), size))
                         rf, regions, iov = self.fragment(rng, bytes(flat2))
                         cs.append(self.mk_D(ty, rf, regions, iov, self.map_ops(rng, ty, value)))
         return list(dict.fromkeys(cs))
@@ -604,8 +593,12 @@ class Check(DiffCheck):
             if c is None: return 'serializer emitted an iovec outside the sender memory: (%d,%d)' % (b, l)
             pieces.append(c)
         flat = b''.join(pieces)
-        # expected stream, from the sender memory of the CASE (before the call) and the shape: fields in archive order, then the body
-        regs = d['regions']
+        # expected stream, from the sender memory and the shape: fields in archive order, then the body (the serializer itself
+        # only writes summed_size words and the checksum; pointers and lengths are the sender's)
+        regs = mem
+        for r0, r1 in zip(d['regions'], mem):
+            if len(r0) != len(r1): return 'serializer changed the size of the sender memory'
+        init_cs = struct.unpack_from('<I', d['regions'][0], 0)[0] if checked else 0
         front = bytearray()
         def fld(f, base, nested):
             o = base + f.off
@@ -641,12 +634,10 @@ class Check(DiffCheck):
         body = flat[len(flat) - size:]
         if len(flat) < size or el[-1] != (ARENA, size): return 'the message body is not the last iovec'
         if checked:
-            start = struct.unpack_from('<I', regs[0], 0)[0]
-            if start == 0:
-                exp = crc32c(bytes(front) + b'\0\0\0\0' + body[4:])
-                if struct.unpack_from('<I', body, 0)[0] != exp: return 'checksum does not cover exactly the emitted bytes'
+            if init_cs == 0:
+                if struct.unpack_from('<I', body, 0)[0] != checksum_of(bytes(front), body): return 'checksum does not cover exactly the emitted bytes'
         # round trip on the flat stream: the reference deserializer must accept it and give the fields back
-        if not checked or struct.unpack_from('<I', regs[0], 0)[0] == 0:
+        if not checked or init_cs == 0:
             try:
                 Ref(flat, flags).message(fs, size, checked)
             except RefFail:
@@ -739,6 +730,10 @@ class Check(DiffCheck):
             ko, kl, vo, vl = e
             return 0 <= ko and kl >= 1 and ko + kl <= bn and 0 <= vo and vo + vl <= bn
         wf = all(good(e) for e in ent)
+        # exact lookup results are only required of maps whose slices do not overlap (Iterator::deserialize rewrites the
+        # pointers of a value in place, which changes the bytes of any key slice laid over it)
+        iv = sorted([(ko, ko + kl) for ko, kl, _, _ in ent] + [(vo, vo + vl) for _, _, vo, vl in ent if vl])
+        wf = wf and all(a[1] <= b[0] for a, b in zip(iv, iv[1:]))
         pr = P(kv['ops'])
         ops = d['ops'].split(',')
         for op in ops:
